@@ -19,6 +19,23 @@ mod vfile;
 //#[cfg(feature = "htx")]
 mod htx;
 
+/// verification hooks, compiled only with `--cfg abyssiniandb_verif`.
+#[cfg(abyssiniandb_verif)]
+pub mod verif {
+    /// drains the log of (file buffer name, operation) of the flush/sync calls on this thread.
+    pub fn take_io_trace() -> Vec<(String, &'static str)> {
+        super::vfile::verif_io_trace::take()
+    }
+    /// see `val::verif_value_slot_sweep`.
+    pub fn value_slot_sweep(from: usize, to: usize, f: &mut dyn FnMut(usize, u32, u32, u32)) {
+        super::val::verif_value_slot_sweep(from, to, f)
+    }
+    /// see `key::verif_key_slot`.
+    pub fn key_slot(key_len: usize, value_offset: u64, next_offset: u64) -> (u32, u32, u32) {
+        super::key::verif_key_slot(key_len, value_offset, next_offset)
+    }
+}
+
 //#[cfg(feature = "node_cache")]
 //mod nc;
 
